@@ -190,7 +190,7 @@ impl LinkRelay<OutputHandle> {
 //@@ spec
     ensures
         final(self).same_but_unsettled(*old(self)),                                                         // [C02.relay.frame]
-        echo == (*old(self) is Sender && !settled && old(self).rsm() == ReceiverSettleMode::Second),        // [C02.relay.echo] a settling echo is requested exactly for a sender whose peer settles second and reports a non-settled disposition
+        echo == (*old(self) is Sender && !settled && old(self).rsm() == ReceiverSettleMode::Second && state is Some && state->Some_0.spec_is_terminal()),        // [C02.relay.echo] a settling echo is requested exactly for a sender whose peer settles second and reports a non-settled disposition carrying a TERMINAL outcome: a non-terminal state (`received`) is only recorded -- settling on it would end the delivery with a non-outcome while the send is still pending
         *old(self) is Sender ==> ({
             let terminal = state is Some && state->Some_0.spec_is_terminal();
             let m0 = old(self).s_unsettled();
